@@ -32,6 +32,18 @@
                                                  accepts a condition that is a copy of an outcome variable (`rule2_name_free`: copies
                                                  of a variable stay adjacent in the counterfactual graph, `cg_dop`; adjacent nodes are
                                                  not d-separated).  No explicit bound (see OPEN).
+    * `idcstar_reassociation_order_independent`  NO DEPENDENCE ON THE ITERATION ORDER OF THE PYTHON SET (after `fix:` b76144c): the set
+                                                 `set(new_event) - set(outcomes) - set(conditions)` of `get_new_outcomes_and_conditions` is
+                                                 iterated in an arbitrary order `π` (any function returning a permutation of its argument)
+                                                 and then sorted by `_variable_sort_key`; on event keys the sorted list, hence the two
+                                                 dicts the function returns, are the same for every `π` (`sortBy_perm_eq`: `Var.keyLt` is
+                                                 a strict order that tells different event keys apart).  `idcstar_reassociation_order_
+                                                 independent_run`: the relabelled event of every run from `IdcInv` inputs has such keys;
+                                                 `idcstar_order_independent`: hence the WHOLE of `idc_star` returns the same answer for
+                                                 every `π` on those inputs (induction along the line-4 recursion).
+                                                 Before the fix the answer depended on PYTHONHASHSEED through this order (finding
+                                                 order-dependent-verdict, now `fixed:`); the harness also runs fresh interpreters under
+                                                 several hash seeds (R-clause).
     * `idcstar_division_modelled`                ID* never returns a Fraction: the modelled division covers every case
     * `idcstar_sound_fragment`                   SOUNDNESS ON A NAMED FRAGMENT (`InFragmentC`, decidable: `inFragmentCB`): observational
                                                  conditional queries P(y | x) — factual variables of the graph, unstarred values, no
@@ -91,6 +103,7 @@ import Y0.Lemmas.CfIdcTerm
 import Y0.Lemmas.CfIdcFrag
 import Y0.Lemmas.CfIdcExch
 import Y0.Lemmas.CfIdcTermC
+import Y0.Lemmas.CfIdcOrder
 import Y0.Props.C07
 
 namespace Y0.Cf
@@ -261,6 +274,50 @@ theorem idcstar_terminates_shared_names (hk : SubsetOrder kordf) (hord : PermOrd
     exact idcStarO_mono_le ordf dordf kordf G N k _ _ r hr
   · obtain ⟨k, rfl⟩ := Nat.exists_eq_add_of_le hfuel
     rw [idcStarFuel_eq_idcStarO, idcStarO_mono_le ordf dordf kordf G N k _ _ r hr]
+
+/-! ## 2b''. the re-association does not depend on the iteration order of a Python set (after `fix:` b76144c) -/
+
+/-- `get_new_outcomes_and_conditions` after the fix: the keys of `set(new_event) - set(outcomes) - set(conditions)`, iterated in
+ANY order `π`, are sorted by `_variable_sort_key` before they are inserted; when the keys of the relabelled event are pairwise
+different event keys (plain / counterfactual variables, no value mark) the result is the same for every `π` -/
+theorem idcstar_reassociation_order_independent (π : List Var → List Var) (hπ : ∀ l, (π l).Perm l)
+    (new outcomes conditions : Event) (hn : new.keys.Nodup) (hk : ∀ k ∈ new.keys, KeyLike k) :
+    newOutcomesAndConditions (fun l => orderDistrict false (π l)) new outcomes conditions =
+      newOutcomesAndConditions (orderDistrict false) new outcomes conditions :=
+  reassoc_order_independent π hπ new outcomes conditions hn hk
+
+/-- … and the relabelled event that line 2 hands to it has such keys, for every input of `idcstar_terminates_shared_names` (`IdcInv`),
+every well-formed loop-free graph and every iteration order of the worlds -/
+theorem idcstar_reassociation_order_independent_run (hord : PermOrder ordf) (hG : G.WF)
+    (hdl : ∀ e ∈ G.di, e.1 ≠ e.2) (hbl : ∀ e ∈ G.bi, e.1 ≠ e.2) (outcomes conditions : Event)
+    (hinv : IdcInv G outcomes conditions) (hne : Event.ofList (outcomes ++ conditions) ≠ []) (cf : MG Var) (nev : Event)
+    (hcg : makeCounterfactualGraph ordf G (Event.ofList (outcomes ++ conditions)) = .ok (cf, some nev))
+    (π : List Var → List Var) (hπ : ∀ l, (π l).Perm l) :
+    newOutcomesAndConditions (fun l => orderDistrict false (π l)) nev outcomes conditions =
+      newOutcomesAndConditions (orderDistrict false) nev outcomes conditions :=
+  reassoc_order_independent_run hord hG hdl hbl outcomes conditions hinv hne hcg π hπ
+
+/-- **IDC\* as a whole does not depend on the iteration order of that set**: for every input of `idcstar_terminates_shared_names`
+(`IdcInv`: dicts of well-formed keys, none self-intervened), every well-formed loop-free graph, every iteration order of the worlds
+and the district nodes, every `π` (the order in which Python happens to iterate the set; any function returning a permutation of
+its argument) and every fuel, the model with the keys sorted AFTER `π` returns what the model with the keys sorted returns.  By
+induction along the line-4 recursion: the relabelled event of each level has pairwise different event keys (`cg_keys_keyLike`), the
+invariant is carried to the next level by `idcStarO_step`. -/
+theorem idcstar_order_independent (hord : PermOrder ordf) (hG : G.WF) (hdl : ∀ e ∈ G.di, e.1 ≠ e.2)
+    (hbl : ∀ e ∈ G.bi, e.1 ≠ e.2) (outcomes conditions : Event) (hinv : IdcInv G outcomes conditions)
+    (π : List Var → List Var) (hπ : ∀ l, (π l).Perm l) :
+    idcStar ordf dordf (fun l => orderDistrict false (π l)) G outcomes conditions =
+      idcStar ordf dordf (orderDistrict false) G outcomes conditions := by
+  unfold idcStar
+  rw [idcStarFuel_eq_idcStarO, idcStarFuel_eq_idcStarO,
+    idcStarO_order_independent hord hG hdl hbl π hπ _ outcomes conditions hinv]
+
+/-- non-vacuity: the order the set happens to be iterated in matters for an UNSORTED insertion (the code before the fix) and not
+after sorting: two re-associated keys `C_b`, `D_b` (names 2, 3; `b` = 1), reversed iteration -/
+example : orderDistrict false (List.reverse [(⟨2, none, false, [⟨1, false⟩]⟩ : Var), ⟨3, none, false, [⟨1, false⟩]⟩]) =
+    orderDistrict false [(⟨2, none, false, [⟨1, false⟩]⟩ : Var), ⟨3, none, false, [⟨1, false⟩]⟩] := by decide
+example : List.reverse [(⟨2, none, false, [⟨1, false⟩]⟩ : Var), ⟨3, none, false, [⟨1, false⟩]⟩] ≠
+    [(⟨2, none, false, [⟨1, false⟩]⟩ : Var), ⟨3, none, false, [⟨1, false⟩]⟩] := by decide
 
 /-! ## 2c. soundness on a named fragment -/
 
